@@ -6,6 +6,7 @@ import (
 	"encoding/json"
 	"fmt"
 	"math"
+	"strings"
 	"testing"
 
 	"pgregory.net/rapid"
@@ -127,7 +128,7 @@ func c08Ops(rt *rapid.T, cols []model.Col, db *model.DB, nextRid *int64, n int) 
 	}
 	for len(ops) < n {
 		direct := rapid.IntRange(0, 2).Draw(rt, "direct") == 0
-		kind := rapid.SampledFrom([]string{"insert", "insert", "insert", "insert400", "insert401", "update", "update400", "update401", "wrongkind", "intrange", "updwrong", "delete"}).Draw(rt, "opkind")
+		kind := rapid.SampledFrom([]string{"insert", "insert", "insert", "insert400", "insert401", "update", "update400", "update401", "wrongkind", "intrange", "updwrong", "delete", "updatepair"}).Draw(rt, "opkind")
 		op := c08Op{Comment: kind}
 		switch kind {
 		case "insert", "insert400", "insert401":
@@ -148,6 +149,43 @@ func c08Ops(rt *rapid.T, cols []model.Col, db *model.DB, nextRid *int64, n int) 
 				}
 				op.Stmt.Rows = [][]model.Val{prow}
 			}
+		case "updatepair":
+			// the same UPDATE text twice, the second time with different white space INSIDE the string
+			// literal only (a user correcting a doubled blank): both values must be stored as written
+			var scols []int
+			for i := 1; i < len(cols); i++ {
+				if cols[i].Type == model.TVarchar {
+					scols = append(scols, i)
+				}
+			}
+			if len(t.Rows) == 0 || len(scols) == 0 {
+				continue
+			}
+			target := t.Rows[rapid.IntRange(0, len(t.Rows)-1).Draw(rt, "target")]
+			ci := scols[rapid.IntRange(0, len(scols)-1).Draw(rt, "wscol")]
+			pairs := [][2]string{{"Ada  Lovelace", "Ada Lovelace"}, {"Ada Lovelace", "Ada  Lovelace"}, {"a b", "a\tb"}, {"x ", "x"}, {"x", "x  "}, {" lead", "lead"}, {"two  blanks", "two   blanks"}}
+			pr := pairs[rapid.IntRange(0, len(pairs)-1).Draw(rt, "wspair")]
+			lit := model.Int(target.Vals[0].(int64))
+			mkUpd := func(v string) model.Stmt {
+				return model.Stmt{Kind: "update", Table: c08Table, Set: []model.Assign{{Col: cols[ci].Name, Val: model.Str(v)}},
+					Where: &model.Cond{Or: [][]model.Cmp{{{L: model.Operand{Col: cols[0].Name}, Op: "=", R: model.Operand{Lit: &lit}}}}}}
+			}
+			first := mkUpd(pr[0])
+			first.SQL = gen.RenderStmt(gen.NewStyle(rt), first)
+			second := mkUpd(pr[1])
+			second.SQL = strings.Replace(first.SQL, "'"+pr[0]+"'", "'"+pr[1]+"'", 1)
+			if second.SQL == first.SQL {
+				continue
+			}
+			for _, st := range []model.Stmt{first, second} {
+				k, err := db.Clone().Apply(st)
+				if err != nil || k != model.OK {
+					continue
+				}
+				db.Apply(st)
+				ops = append(ops, c08Op{Stmt: st, Expect: model.OK, Comment: "updatepair"})
+			}
+			continue
 		case "delete":
 			// a deleted row's neighbours must keep reading back exactly
 			if len(t.Rows) == 0 {
